@@ -1,7 +1,11 @@
 package main
 
 import (
+	"crypto/sha1"
+	"go/constant"
+	"encoding/hex"
 	"fmt"
+	"sync"
 	"go/token"
 	"go/types"
 	"os"
@@ -40,6 +44,7 @@ type Prog struct {
 	addrTaken       map[*ssa.Function]bool
 	exportedMethods []*ssa.Function
 	boxedFns        map[*ssa.Function]bool
+	vtaCallees      map[*ssa.Function]map[*ssa.Function]bool
 	boxedTypes      map[string]types.Type
 	externGlobals   map[string]*ssa.Global
 	ExecReach       map[*ssa.Function]bool
@@ -47,6 +52,8 @@ type Prog struct {
 	allKeys         KeySet
 	structBySort    map[string]types.Type
 	globalStr       map[*ssa.Global]*string
+	mu              sync.Mutex
+	srcLines        map[string][]string
 }
 
 func LoadProg(repo string) (*Prog, error) {
@@ -97,6 +104,7 @@ func LoadProg(repo string) (*Prog, error) {
 	}
 	sort.Slice(p.FuncList, func(i, j int) bool { return p.FuncName(p.FuncList[i]) < p.FuncName(p.FuncList[j]) })
 
+	p.preassignIDs()
 	cpath := filepath.Join(repo, "verif_contracts.go")
 	cs, err := ParseContractsFile(cpath)
 	if err != nil {
@@ -111,6 +119,33 @@ func (p *Prog) FuncName(fn *ssa.Function) string {
 	return fn.RelString(p.Types)
 }
 
+// lineHash: 6 hex digits identifying the text of the source line at pos (whitespace-insensitive).
+func (p *Prog) lineHash(pos token.Pos) string {
+	if !pos.IsValid() {
+		return "000000"
+	}
+	po := p.Fset.Position(pos)
+	p.mu.Lock()
+	defer p.mu.Unlock()
+	if p.srcLines == nil {
+		p.srcLines = map[string][]string{}
+	}
+	lines, ok := p.srcLines[po.Filename]
+	if !ok {
+		b, err := os.ReadFile(po.Filename)
+		if err == nil {
+			lines = strings.Split(string(b), "\n")
+		}
+		p.srcLines[po.Filename] = lines
+	}
+	if po.Line-1 >= len(lines) || po.Line < 1 {
+		return "000000"
+	}
+	txt := strings.Join(strings.Fields(lines[po.Line-1]), " ")
+	h := sha1.Sum([]byte(txt))
+	return hex.EncodeToString(h[:3])
+}
+
 func (p *Prog) Pos(pos token.Pos) string {
 	if !pos.IsValid() {
 		return ""
@@ -121,6 +156,8 @@ func (p *Prog) Pos(pos token.Pos) string {
 
 // TypeID gives a stable small integer per Go type (used as dynamic type tag).
 func (p *Prog) TypeID(t types.Type) int {
+	p.mu.Lock()
+	defer p.mu.Unlock()
 	k := types.TypeString(t, nil)
 	if id, ok := p.typeIDs[k]; ok {
 		return id
@@ -165,4 +202,48 @@ func (p *Prog) implementers(iface *types.Interface) []types.Type {
 		}
 	}
 	return out
+}
+
+// preassignIDs gives types and string constants ids in a deterministic (sorted) order,
+// so that generated scripts are identical from run to run.
+func (p *Prog) preassignIDs() {
+	tset := map[string]types.Type{}
+	sset := map[string]bool{}
+	for _, fn := range p.FuncList {
+		for _, b := range fn.Blocks {
+			for _, in := range b.Instrs {
+				switch x := in.(type) {
+				case *ssa.MakeInterface:
+					tset[types.TypeString(x.X.Type(), nil)] = x.X.Type()
+				case *ssa.TypeAssert:
+					tset[types.TypeString(x.AssertedType, nil)] = x.AssertedType
+				}
+				for _, op := range in.Operands(nil) {
+					if op == nil || *op == nil {
+						continue
+					}
+					if c, ok := (*op).(*ssa.Const); ok && c.Value != nil && c.Value.Kind() == constant.String {
+						sset[constant.StringVal(c.Value)] = true
+					}
+				}
+			}
+		}
+	}
+	var tk []string
+	for k := range tset {
+		tk = append(tk, k)
+	}
+	sort.Strings(tk)
+	for _, k := range tk {
+		p.TypeID(tset[k])
+	}
+	var sk []string
+	for k := range sset {
+		sk = append(sk, k)
+	}
+	sort.Strings(sk)
+	for _, k := range sk {
+		p.StrID(k)
+	}
+	p.FuncID(p.FuncList[0])
 }
